@@ -10,6 +10,8 @@
   answer    <hex of the reference frame> <decode status>
      decode status: the reference *collector* (Wire.collect) is run on the frame around the `go` payload and
      its result compared with pcode, license hash, type and fields of the request:  ok | nogo | decfail | diff | badtype
+  secure <src> <ver> <pcode> <oid> <key> <payload hex>  →  the secure-header frame
+  ecb <n> <hex>  →  the payload padded to a multiple of n
   stream <hex of a connection's bytes>  →  <whole frames> <bytes left over> <payload lengths>
   collect <hex of a frame>  →  <pcode> <license hash> <pack type>   |  fail
   an unknown key is answered  badkey:<key>
@@ -306,6 +308,14 @@ def answer (line : String) : String :=
     match ofHex hex with
     | some bs => s!"{hash64 bs}"
     | none => "bad-op"
+  | ["secure", src, ver, pc, oid, key, hex] =>
+    match parseNat src, parseNat ver, parseInt pc, parseInt oid, parseInt key, ofHex hex with
+    | some a, some b, some c, some d, some e, some pl => hexOf (secureFrame a b c d e pl)
+    | _, _, _, _, _, _ => "bad-op"
+  | ["ecb", n, hex] =>
+    match parseNat n, ofHex hex with
+    | some n, some bs => hexOf (padECB n bs)
+    | _, _ => "bad-op"
   | ["stream", hex] =>
     -- a connection's byte stream: <number of whole frames> <bytes left over> <payload length of each frame,…>
     match ofHex hex with
